@@ -105,6 +105,7 @@ class RealWorld:
         self.objs = {}
         self.kinds = {}
         self.pending_files = set()
+        self.caller_fs = []         # filesystem objects the CALLER made and handed to a reader: they stay the caller's
 
     def make_reader(self, kind, name, src, cfd):
         from pyctr.type.romfs import RomFSReader
@@ -124,22 +125,26 @@ class RealWorld:
             d = tempfile.mkdtemp(dir=self.tmp)
             files, tk = fx
             o = OSFS(d)
+            self.caller_fs.append(o)
             for n, data in files.items():
                 o.writebytes(n, data)
             r = CDNReader('tmd', fs=o, decrypted_titlekey=tk) if kind == 'cdn' else SDTitleReader('00000000.tmd', fs=o)
         else:
             data = fx[0] if kind == 'nand' else fx
             extra = {'otp': fx[1], 'cid': fx[2]} if kind == 'nand' else {}
-            if src in ('path', 'fs'):
+            if src in ('path', 'path-b', 'path-p', 'fs'):
                 p = os.path.join(self.tmp, f'{name}-{len(self.objs)}.bin')
                 with open(p, 'wb') as f:
                     f.write(data)
                 if src == 'fs':
                     from fs.osfs import OSFS
                     kw = dict(kw, fs=OSFS(self.tmp))
+                    self.caller_fs.append(kw['fs'])
                     arg = os.path.basename(p)
                 else:
-                    arg = p
+                    # every spelling of a path the library accepts: str, bytes, os.PathLike
+                    import pathlib
+                    arg = {'path': p, 'path-b': os.fsencode(p), 'path-p': pathlib.Path(p)}[src]
             else:
                 arg = io.BytesIO(data)
                 self.objs[src] = arg
@@ -147,7 +152,7 @@ class RealWorld:
                    'ncch-simple': NCCHReader, 'cia': CIAReader, 'cci': CCIReader, 'nand': NAND, 'diff': DIFF, 'disa': DISA,
                    'diff-ext': DIFF, 'disa-ext': DISA}[kind]
             r = cls(arg, **extra, **kw)
-            if src in ('path', 'fs'):
+            if src in ('path', 'path-b', 'path-p', 'fs'):
                 self.objs[name + '.file'] = r._file
         self.objs[name] = r
         self.kinds[name] = kind
@@ -318,7 +323,7 @@ class C16(Check):
                 for cfd in (None, False, True):
                     yield {'kind': kind, 'how': how, 'cfd': cfd, 'tail': 'ctorfail', 'src': 'obj', 'sites': [], 'q': []}
         for kind in KINDS:
-            srcs = ['path'] if kind in DIR_KINDS else ['obj', 'path', 'fs']
+            srcs = ['path'] if kind in DIR_KINDS else ['obj', 'path', 'path-b', 'path-p', 'fs']
             cfds = [None] if kind in DIR_KINDS else [None, True, False]
             for src in srcs:
                 for cfd in cfds:
@@ -390,7 +395,7 @@ class C16(Check):
 
     def gen(self, rng, tier, i, kind=None):
         kind = kind or rng.pick(list(KINDS))
-        src = 'path' if kind in DIR_KINDS else rng.pick(['obj', 'path', 'fs'])
+        src = 'path' if kind in DIR_KINDS else rng.pick(['obj', 'path', 'path-b', 'path-p', 'fs'])
         cfd = None if kind in DIR_KINDS else rng.pick([None, True, False])
         allsites = handle_sites(kind)
         sites = [rng.pick(allsites) for _ in range(rng.randint(1, 5))]
@@ -458,6 +463,7 @@ class C16(Check):
         try:
             w = RealWorld(tmp)
             real = [w.run(op) for op in ops]
+            fs_closed = [f for f in w.caller_fs if f.isclosed()]
             for o in w.objs.values():
                 try:
                     o.close()
@@ -465,7 +471,7 @@ class C16(Check):
                     pass
         finally:
             shutil.rmtree(tmp, ignore_errors=True)
-        mops = [['reader', op[1], op[2], 'path' if op[3] in ('path', 'fs') else op[3], op[4]] if op[0] == 'reader' else
+        mops = [['reader', op[1], op[2], 'path' if op[3] in ('path', 'path-b', 'path-p', 'fs') else op[3], op[4]] if op[0] == 'reader' else
                 ([op[0], op[1], 'openbin', op[3]] if op[0] == 'open' and op[2] == 'openbin0' else op) for op in ops]
         model = drv.ask(sexp(['close-run'] + mops)).split(' ')
         # non-vacuity of the every-level completeness theorem: are its side conditions met by the graph this script builds?
@@ -529,6 +535,8 @@ class C16(Check):
                     mon.append(f'file closed={out} with closefd={cfd}, source {src}, reader closed={reader_closed}')
             if mon:
                 break
+        if fs_closed and not mon:
+            mon.append("a filesystem object the caller handed in (fs=) was closed by the library: it belongs to the caller")
         info = {'close-graph:' + geom: 1, f'kind:{kind}': 1, f'src:{src}': 1, f'cfd:{cfd}': 1, f'tail:{case["tail"].split(":")[0]}': 1}
         return CaseResult(real, model, mon, f'{kind}:{src}:{cfd}:{case["tail"]}:{len(ops)}', key, info)
 
